@@ -186,9 +186,12 @@ def resolve(r, op):
     if kind == "move":
         e, k1, k2 = ent(op[1]), cont(op[2]), cont(op[3])
         return None if None in (e, k1, k2) else ("move", k1, e, k2)
-    if kind == "unlink":
+    if kind in ("unlink", "del", "addex"):
         e, k = ent(op[1]), cont(op[2])
-        return None if None in (e, k) else ("unlink", k, e)
+        return None if None in (e, k) else (kind, k, e)
+    if kind == "copy":
+        e, k = ent(op[1]), cont(op[2])
+        return None if None in (e, k) else ("copy", e, k)
     if kind == "setgroup":
         ms = [ent(i) for i in op[2]]
         return None if None in ms else ("setgroup", op[1], ms)
@@ -215,6 +218,34 @@ def directed_histories():
     # runs of adjacent destroyed entities, then purge: len(layout) and the stored order are observables
     for dead in ([0, 1], [1, 2], [0, 1, 2], [1, 2, 3], [0, 1, 2, 3], [0, 2], [0, 1, 3]):
         out.append([("add", "msp")] * 4 + [("add", "psp")] + [("destroy", i) for i in dead] + [("purge",), ("add", "msp"), ("reload",)])
+    # requests addressed to a layout that does NOT own the entity: rejected, nothing changes (every entity kind x every
+    # owner x every wrong address x unlink / move / delete), then the same request to the right layout
+    conts = ["msp", "psp", ("blk", "HOLD")]
+    for kind in (("add",), ("poly",), ("ins",)):
+        for own in conts:
+            make = {"add": ("add", own), "poly": ("poly", own), "ins": ("ins", own, "HOLD2", 1)}[kind[0]]
+            for wrong in conts:
+                if wrong == own:
+                    continue
+                other = next(c for c in conts if c not in (own, wrong))
+                out.append([("newblock", "HOLD"), ("newblock", "HOLD2"), ("add", wrong), make,
+                            ("unlink", -1, wrong), ("move", -1, wrong, other), ("move", -1, wrong, own), ("del", -1, wrong),
+                            ("move", -1, own, wrong), ("del", -1, own), ("del", -1, wrong), ("unlink", -1, wrong), ("reload",)])
+    # the generator across save + reload: the entities / objects with the HIGHEST handles are deleted before the file is
+    # written; $HANDSEED of the file must still be above them (the model takes the generator after loading from the file)
+    killers = [
+        [("add", "msp"), ("add", "msp"), ("del", -1, "msp"), ("del", -2, "msp")],
+        [("poly", "psp"), ("destroy", -1), ("purge",)],
+        [("newblock", "TMP"), ("add", ("blk", "TMP")), ("delblock", "TMP", True)],
+        [("newblock", "TMP"), ("ins", "msp", "TMP", 2), ("explode", -1), ("del", -1, "msp"), ("del", -2, "msp")],
+        [("addlayer", "TMPL"), ("dellayer", "TMPL")],
+        [("addentry", 2, "TMPS"), ("delentry", 2, "tmps")],
+        [("add", "msp"), ("newgroup", "TG"), ("setgroup", "TG", [-1]), ("delgroup", "tg"), ("destroy", -1)],
+        [("newlayout", "TMPLAY"), ("add", "msp"), ("dellayout", "tmplay"), ("del", -1, "msp")],
+    ]
+    for k in killers:
+        out.append([("add", "msp"), ("reload",)] + k + [("reload",), ("add", "msp"), ("poly", "psp"), ("newblock", "AFTER"), ("reload",), ("add", "msp")])
+        out.append([("add", "msp"), ("reload",)] + k + [("auditstep",), ("purge",), ("reload",), ("add", "msp")])
     # group members moved / unlinked / destroyed, then save + reload and audit
     for act in (("move", 0, "msp", "psp"), ("unlink", 0, "msp"), ("destroy", 0), ("move", 0, "msp", ("blk", "B"))):
         for end in (("reload",), ("auditstep",)):
